@@ -82,7 +82,11 @@ CLAIMS = {
          "judgement Model/InferSpec.lean::Wt with types compared in the final store — uses have the type of their binder, references "
          "are instances of the signature, callee / condition / branch / operand / pattern / projection obligations hold, the body has "
          "the declared result type — from solve_eq_sound; under the decidable certificate justB, which the driver evaluates on every "
-         "function of the tie stream). Tie: gv infer observes the REAL typecheck_fn through one cfg(goml_verif) observer hook on "
+         "function of the tie stream), genFn_justified (NO certificate: every obligation of every tree generation returns without a "
+         "diagnostic is an identity, a queued TypeEqual / StructFieldAccess, a binder, an inst_ty instance or a tuple component — a "
+         "second induction over the mutual recursor, Lemmas/InferJustGo.lean::go_just) and infer_sound / infer_sound_nofield (the "
+         "headline WITHOUT the certificate: no diagnostic => the body is well typed for every binder table that gives each binder "
+         "its type; field accesses judged only by 'the constraint was queued and solve ended clean'). Tie: gv infer observes the REAL typecheck_fn through one cfg(goml_verif) observer hook on "
          "generated function bodies and compares queue before solve, fresh-key counts, diagnostic classes, recorded and final type of "
          "every node with gomlmodel infer. Oracle without the model: every accepted generated function's REAL final types satisfy Wt; "
          "every program with one injected error of 18 kinds is rejected by the typer.",
@@ -93,8 +97,9 @@ CLAIMS = {
          "Not done: typing preservation for closures through lift (known finding), for mono phase 2 with type applications and for "
          "the match compiler; soundness of Sem w.r.t. wt; of the typer's inference (check.rs, 3 300 lines) only the fragment of "
          "Model/Infer.lean is modelled (constructors, struct literals, arrays, method / trait-bounded calls, dyn coercions are not), "
-         "infer_sound_partial assumes the per-function certificate justB (validated on every tied function, not proved for all inputs) "
-         "and excludes field accesses; the model is tied by sampling generated bodies. The preservation theorems are about the pass MODELS under decidable hypotheses that are validated (not proved) to hold "
+         "infer_sound takes the binder table (one LocalId per binder: name resolution, C05) as a hypothesis and does not state what a "
+         "solved StructFieldAccess means; the post-pass check_operator_operand_classes (fix f86e443) is outside the model; the model is "
+         "tied by sampling generated bodies. The preservation theorems are about the pass MODELS under decidable hypotheses that are validated (not proved) to hold "
          "on the real programs of each run. Trusted: Lean kernel, our reading of type consistency in Wt.errs, harness dumps of the environments, the generator's "
          "own typing. Fixed: a value coerced to dyn Trait twice inside a call argument. Known findings: after lambda lifting closures are "
          "structs while the positions they flow through keep function types (Lift/ANF not type-consistent); phantom type parameters "
